@@ -14,40 +14,53 @@ theorem digestMsiTar_append (a b : List Member) :
     digestMsiTar H ext (a ++ b) = digestMsiTar H ext a ++ digestMsiTar H ext b := by
   simp [digestMsiTar]
 
-/-- how a child's contribution on the tar path relates to its contribution on the direct path -/
-def PayRel (m : Meta) (rh : Res Bytes) (rt : Res (List Member)) : Prop :=
-  if isSig m = true then ∃ ms, rt = .ok ms ∧ digestMsiTar H ext ms = []
+/-- how a child's contribution on the tar path relates to its contribution on the direct path: in the root storage a
+    signature entry contributes nothing on either side -/
+def PayRel (isRoot : Bool) (m : Meta) (rh : Res Bytes) (rt : Res (List Member)) : Prop :=
+  if (isRoot && isSig m) = true then ∃ ms, rt = .ok ms ∧ digestMsiTar H ext ms = []
   else RelRes (fun b ms => digestMsiTar H ext ms = b) rh rt
 
-def ItemRel (a : Item Bytes) (b : Item (List Member)) : Prop := a.1 = b.1 ∧ PayRel H ext a.1 a.2 b.2
+def ItemRel (isRoot : Bool) (a : Item Bytes) (b : Item (List Member)) : Prop :=
+  a.1 = b.1 ∧ PayRel H ext isRoot a.1 a.2 b.2
 
-theorem catRes_rel : ∀ (s1 : List (Item Bytes)) (s2 : List (Item (List Member))), All2 (ItemRel H ext) s1 s2 →
+/-- the filter of `hashMsiDir` under a name (so that `simp` leaves it alone) -/
+def keepB (isRoot : Bool) (it : Item Bytes) : Bool := !(isRoot && isSig it.1)
+
+theorem hashDirOf_keep (isRoot : Bool) (clsid : Bytes) (items : List (Item Bytes)) :
+    hashDirOf isRoot clsid items = (do
+      let s ← sortItems items
+      let body ← catRes ((s.filter (keepB isRoot)).map (·.2))
+      pure (body ++ clsid)) := rfl
+
+theorem catRes_rel (isRoot : Bool) : ∀ (s1 : List (Item Bytes)) (s2 : List (Item (List Member))),
+    All2 (ItemRel H ext isRoot) s1 s2 →
     RelRes (fun b ms => digestMsiTar H ext ms = b)
-      (catRes ((s1.filter (fun it => !isSig it.1)).map (·.2))) (catRes (s2.map (·.2))) := by
+      (catRes ((s1.filter (keepB isRoot)).map (·.2))) (catRes (s2.map (·.2))) := by
   intro s1 s2 h
   induction h with
   | nil => simp [catRes, RelRes, digestMsiTar]
   | @cons a b l1 l2 hab _ ih =>
     obtain ⟨hm, hp⟩ := hab
     unfold PayRel at hp
-    by_cases hs : isSig a.1 = true
-    · simp only [hs, if_true] at hp
+    by_cases hs : (isRoot && isSig a.1) = true
+    · have hk : keepB isRoot a = false := by simp [keepB, hs]
+      simp only [hs, if_true] at hp
       obtain ⟨ms, hms, hd⟩ := hp
-      simp only [List.filter_cons, hs, Bool.not_true, Bool.false_eq_true, if_false, List.map_cons, catRes, hms,
-        Res.bind_ok']
+      simp only [List.filter_cons, hk, Bool.false_eq_true, if_false, List.map_cons, catRes, hms, Res.bind_ok']
       revert ih
-      cases catRes (List.map (·.2) (List.filter (fun it => !isSig it.1) l1)) <;>
+      cases catRes (List.map (·.2) (List.filter (keepB isRoot) l1)) <;>
         cases catRes (List.map (·.2) l2) <;> simp [RelRes]
       intro ih
       rw [digestMsiTar_append, hd, ih]; rfl
-    · have hs' : isSig a.1 = false := by simpa using hs
+    · have hs' : (isRoot && isSig a.1) = false := by simpa using hs
+      have hk : keepB isRoot a = true := by simp [keepB, hs']
       simp only [hs', Bool.false_eq_true, if_false] at hp
-      simp only [List.filter_cons, hs', Bool.not_false, if_true, List.map_cons, catRes]
+      simp only [List.filter_cons, hk, if_true, List.map_cons, catRes]
       revert hp
       cases a.2 <;> cases b.2 <;> simp [RelRes]
       · intro hp
         revert ih
-        cases catRes (List.map (·.2) (List.filter (fun it => !isSig it.1) l1)) <;>
+        cases catRes (List.map (·.2) (List.filter (keepB isRoot) l1)) <;>
           cases catRes (List.map (·.2) l2) <;> simp [RelRes]
         intro ih
         rw [digestMsiTar_append, hp, ih]
@@ -62,53 +75,125 @@ theorem uid_name_plain (path : List Nat) :
     simp [storageUidName]
   exact ⟨key _ (by decide), key _ (by decide), key _ (by decide)⟩
 
-theorem tarDirOf_rel (path : List Nat) (clsid : Bytes) (l1 : List (Item Bytes)) (l2 : List (Item (List Member)))
-    (h : All2 (ItemRel H ext) l1 l2) :
-    RelRes (fun b ms => digestMsiTar H ext ms = b) (hashDirOf clsid l1) (tarDirOf path clsid l2) := by
-  have hs := sortRes_rel (ItemRel H ext) (fun a b : Item Bytes => less a.1 b.1)
+theorem tarDirOf_rel (isRoot : Bool) (path : List Nat) (clsid : Bytes) (l1 : List (Item Bytes))
+    (l2 : List (Item (List Member))) (h : All2 (ItemRel H ext isRoot) l1 l2) :
+    RelRes (fun b ms => digestMsiTar H ext ms = b) (hashDirOf isRoot clsid l1) (tarDirOf path clsid l2) := by
+  have hs := sortRes_rel (ItemRel H ext isRoot) (fun a b : Item Bytes => less a.1 b.1)
     (fun a b : Item (List Member) => less a.1 b.1)
     (fun a1 a2 b1 b2 ha hb => by rw [ha.1, hb.1]) l1 l2 h
-  unfold hashDirOf tarDirOf sortItems
+  rw [hashDirOf_keep]
+  unfold tarDirOf sortItems
   revert hs
   cases sortRes (fun a b : Item Bytes => less a.1 b.1) l1 <;>
     cases sortRes (fun a b : Item (List Member) => less a.1 b.1) l2 <;> simp [RelRes]
   intro hs
-  have hc := catRes_rel H ext _ _ hs
+  have hc := catRes_rel H ext isRoot _ _ hs
   revert hc
   rename_i s1 s2
-  cases catRes (List.map (·.2) (List.filter (fun it => !isSig it.1) s1)) <;>
+  cases catRes (List.map (·.2) (List.filter (keepB isRoot) s1)) <;>
     cases catRes (List.map (·.2) s2) <;> simp [RelRes]
   intro hc
   obtain ⟨u1, u2, u3⟩ := uid_name_plain path
   rw [digestMsiTar_append, hc]
   simp [digestMsiTar, tarContribution, u1, u2, u3]
 
+/-- a tar name below the root holds a '/' and so is none of the three names `DigestMsiTar` treats specially -/
+theorem slash_name_plain (path x : List Nat) (hp : 47 ∈ path) :
+    path ++ x ≠ exmetaName ∧ path ++ x ≠ sigName ∧ path ++ x ≠ sigExName := by
+  have key : ∀ X : List Nat, 47 ∉ X → path ++ x ≠ X := by
+    intro X hX e
+    apply hX
+    rw [← e]
+    exact List.mem_append_left _ hp
+  exact ⟨key _ (by decide), key _ (by decide), key _ (by decide)⟩
+
 mutual
-theorem tarItem_rel : ∀ (path : List Nat) (n : Node), tarSafeNode path n = true →
-    ItemRel H ext (hashItem n) (tarItem path n)
-  | path, .mk m c kids, h => by
-    rw [tarSafeNode] at h
+/-- below the root the two paths agree on every entry, whatever its name -/
+theorem tarItem_rel_nested : ∀ (path : List Nat) (n : Node), 47 ∈ path →
+    ItemRel H ext false (hashItem n) (tarItem path n)
+  | path, .mk m c kids, hp => by
     rw [hashItem, tarItem]
     refine ⟨rfl, ?_⟩
     unfold PayRel
+    simp only [Bool.false_and, Bool.false_eq_true, if_false]
     by_cases h2 : m.typ = typStream
-    · simp only [h2, if_true, Bool.and_eq_true, decide_eq_true_eq, beq_iff_eq] at h ⊢
+    · simp only [h2, if_true, RelRes]
+      obtain ⟨u1, u2, u3⟩ := slash_name_plain path (msiDecodeName (goName m)) hp
+      simp [digestMsiTar, tarContribution, u1, u2, u3]
+    · by_cases h1 : m.typ = typStorage
+      · simp only [h2, h1, if_true, if_false]
+        exact tarDirOf_rel H ext false _ m.clsid _ _
+          (tarItems_rel_nested _ kids (List.mem_append_right _ (List.mem_singleton.mpr rfl)))
+      · simp only [h2, h1, if_false, RelRes]
+        rfl
+theorem tarItems_rel_nested : ∀ (path : List Nat) (ks : List Node), 47 ∈ path →
+    All2 (ItemRel H ext false) (hashItems ks) (tarItems path ks)
+  | path, [], _ => by rw [hashItems, tarItems]; exact All2.nil
+  | path, n :: r, hp => by
+    rw [hashItems, tarItems]
+    exact All2.cons (tarItem_rel_nested path n hp) (tarItems_rel_nested path r hp)
+end
+
+/-- the test `checkMsiTarNames` makes on one entry of the root storage -/
+def rootOkB (n : Node) : Bool :=
+  if n.meta.typ = typStream then
+    !(decide (msiDecodeName (goName n.meta) = exmetaName) ||
+      (decide (msiDecodeName (goName n.meta) = sigName ∨ msiDecodeName (goName n.meta) = sigExName) &&
+        decide (msiDecodeName (goName n.meta) ≠ goName n.meta)))
+  else if n.meta.typ = typStorage then !isSig n.meta
+  else true
+
+theorem tarRootOkB_all (ks : List Node) : tarRootOkB ks = ks.all rootOkB := rfl
+
+theorem msiDecodeName_sig : msiDecodeName sigName = sigName := by decide
+theorem msiDecodeName_sigEx : msiDecodeName sigExName = sigExName := by decide
+
+/-- in the root storage the two paths agree on every entry that `checkMsiTarNames` lets through -/
+theorem tarItem_rel_root : ∀ (n : Node), rootOkB n = true → ItemRel H ext true (hashItem n) (tarItem [] n)
+  | .mk m c kids, h => by
+    rw [hashItem, tarItem]
+    refine ⟨rfl, ?_⟩
+    unfold PayRel
+    simp only [Bool.true_and, List.nil_append]
+    unfold rootOkB at h
+    simp only [Node.meta] at h
+    by_cases h2 : m.typ = typStream
+    · simp only [h2, if_true, Bool.not_eq_true', Bool.or_eq_false_iff, Bool.and_eq_false_iff] at h
+      have g1 : ¬ msiDecodeName (goName m) = exmetaName := of_decide_eq_false h.1
+      have g2 : ¬ (msiDecodeName (goName m) = sigName ∨ msiDecodeName (goName m) = sigExName) ∨
+          msiDecodeName (goName m) = goName m := by
+        rcases h.2 with h' | h'
+        · exact Or.inl (of_decide_eq_false h')
+        · exact Or.inr (Classical.not_not.mp (of_decide_eq_false h'))
+      simp only [h2, if_true]
       by_cases hs : isSig m = true
       · simp only [hs, if_true]
         refine ⟨_, rfl, ?_⟩
-        have : path ++ msiDecodeName (goName m) = sigName ∨ path ++ msiDecodeName (goName m) = sigExName := by
-          have := h.2; rw [hs] at this; simpa using this
-        simp [digestMsiTar, tarContribution, h.1, this]
+        have hn : msiDecodeName (goName m) = sigName ∨ msiDecodeName (goName m) = sigExName := by
+          unfold isSig at hs
+          simp only [Bool.or_eq_true, decide_eq_true_eq] at hs
+          rcases hs with e | e
+          · left; rw [e]; exact msiDecodeName_sig
+          · right; rw [e]; exact msiDecodeName_sigEx
+        simp [digestMsiTar, tarContribution, g1, hn]
       · have hs' : isSig m = false := by simpa using hs
         simp only [hs', Bool.false_eq_true, if_false, RelRes]
-        have : ¬ (path ++ msiDecodeName (goName m) = sigName ∨ path ++ msiDecodeName (goName m) = sigExName) := by
-          have := h.2; rw [hs'] at this; simpa using this
-        simp [digestMsiTar, tarContribution, h.1, this]
+        have hn : ¬ (msiDecodeName (goName m) = sigName ∨ msiDecodeName (goName m) = sigExName) := by
+          intro hh
+          rcases g2 with h' | e
+          · exact h' hh
+          · unfold isSig at hs'
+            simp only [Bool.or_eq_false_iff, decide_eq_false_iff_not] at hs'
+            rcases hh with e1 | e1
+            · exact hs'.1 (e ▸ e1)
+            · exact hs'.2 (e ▸ e1)
+        simp [digestMsiTar, tarContribution, g1, hn]
     · by_cases h1 : m.typ = typStorage
       · have hne : ¬ (typStorage = typStream) := by decide
-        simp only [h2, h1, hne, if_true, if_false, Bool.and_eq_true, Bool.not_eq_true'] at h ⊢
-        simp only [h.1, Bool.false_eq_true, if_false]
-        exact tarDirOf_rel H ext _ m.clsid _ _ (tarItems_rel _ kids h.2)
+        simp only [h2, h1, hne, if_true, if_false, Bool.not_eq_true'] at h ⊢
+        simp only [h, Bool.false_eq_true, if_false]
+        exact tarDirOf_rel H ext false _ m.clsid _ _
+          (tarItems_rel_nested H ext _ kids (List.mem_append_right _ (List.mem_singleton.mpr rfl)))
       · simp only [h2, h1, if_false]
         by_cases hs : isSig m = true
         · simp only [hs, if_true]
@@ -116,24 +201,33 @@ theorem tarItem_rel : ∀ (path : List Nat) (n : Node), tarSafeNode path n = tru
         · have hs' : isSig m = false := by simpa using hs
           simp only [hs', Bool.false_eq_true, if_false, RelRes]
           rfl
-theorem tarItems_rel : ∀ (path : List Nat) (ks : List Node), tarSafeB path ks = true →
-    All2 (ItemRel H ext) (hashItems ks) (tarItems path ks)
-  | path, [], _ => by rw [hashItems, tarItems]; exact All2.nil
-  | path, n :: r, h => by
-    rw [tarSafeB] at h
-    simp only [Bool.and_eq_true] at h
-    rw [hashItems, tarItems]
-    exact All2.cons (tarItem_rel path n h.1) (tarItems_rel path r h.2)
-end
 
-theorem msiToTar_digest (root : Node) (hsafe : tarSafeB [] root.kids = true) (ms : List Member)
-    (ht : msiToTar root = .ok ms) : digestMSI H root ext = .ok (digestMsiTar H ext ms) := by
+theorem tarItems_rel_root : ∀ (ks : List Node), ks.all rootOkB = true →
+    All2 (ItemRel H ext true) (hashItems ks) (tarItems [] ks)
+  | [], _ => by rw [hashItems, tarItems]; exact All2.nil
+  | n :: r, h => by
+    simp only [List.all_cons, Bool.and_eq_true] at h
+    rw [hashItems, tarItems]
+    exact All2.cons (tarItem_rel_root H ext n h.1) (tarItems_rel_root r h.2)
+
+/-- a successful `MsiToTar` passed `checkMsiTarNames` -/
+theorem msiToTar_ok_rootOk (root : Node) (ms : List Member) (ht : msiToTar root = .ok ms) :
+    tarRootOkB root.kids = true := by
   unfold msiToTar at ht
+  cases h : tarRootOkB root.kids with
+  | true => rfl
+  | false => rw [h] at ht; simp at ht
+
+theorem msiToTar_digest (root : Node) (ms : List Member)
+    (ht : msiToTar root = .ok ms) : digestMSI H root ext = .ok (digestMsiTar H ext ms) := by
+  have hsafe := msiToTar_ok_rootOk root ms ht
+  unfold msiToTar at ht
+  simp only [hsafe, Bool.not_true, Bool.false_eq_true, if_false] at ht
   cases hp : prehashMsiDir root with
   | ok pre =>
     rw [hp] at ht
     simp only [Res.bind_ok'] at ht
-    have hr := tarDirOf_rel H ext [] root.meta.clsid _ _ (tarItems_rel H ext [] root.kids hsafe)
+    have hr := tarDirOf_rel H ext true [] root.meta.clsid _ _ (tarItems_rel_root H ext root.kids hsafe)
     cases hb : tarDirOf [] root.meta.clsid (tarItems [] root.kids) with
     | ok body =>
       rw [hb] at ht hr
@@ -141,7 +235,7 @@ theorem msiToTar_digest (root : Node) (hsafe : tarSafeB [] root.kids = true) (ms
       subst ht
       unfold digestMSI hashMsiDir
       revert hr
-      cases hashDirOf root.meta.clsid (hashItems root.kids) <;> simp [RelRes]
+      cases hashDirOf true root.meta.clsid (hashItems root.kids) <;> simp [RelRes]
       intro hr
       rw [hp]
       cases ext with
